@@ -83,7 +83,8 @@ class FakeService:
                         c.close()
                         return
                     if isinstance(res, tuple) and res[0] == "upgrade":
-                        c.sendall(json.dumps(res[1]).encode() + b"\0")
+                        # a service that speaks first sends its greeting in the same write as the reply
+                        c.sendall(json.dumps(res[1]).encode() + b"\0" + state.get("banner", b""))
                         upgraded = True
                         if buf:
                             with self.lock:
